@@ -133,6 +133,12 @@ func funcName(fn *ssa.Function) string {
 
 func (r *Run) goPanic(msg string) {
 	r.lastPanic = msg + " at " + r.curPos()
+	if os.Getenv("GOSYM_GOSTACK") != "" {
+		fmt.Fprintf(os.Stderr, "[go panic] %s\n", r.lastPanic)
+		for f := r.frame; f != nil; f = f.caller {
+			fmt.Fprintf(os.Stderr, "    %s\n", f.info.name)
+		}
+	}
 	panic(&goPanicT{val: &IfaceV{typ: types.Typ[types.String], val: r.constStr(msg)}, msg: msg, pos: r.curPos()})
 }
 
@@ -598,8 +604,14 @@ func (r *Run) instr(fr *Frame, ins ssa.Instruction) {
 		}
 		fr.defers = append(fr.defers, deferred{fn: fv, args: args, call: &x.Call})
 	case *ssa.Go:
-		// sequentialised: run at the spawn point
 		r.sequentialised = true
+		if r.lazyGo {
+			// queued: runs when a goroutine blocks (WaitGroup.Wait, empty channel, held mutex) or the harness ends
+			fv, args := r.prepCall(fr, &x.Call)
+			r.goQueue = append(r.goQueue, pendingGo{fn: fv, args: args, call: &x.Call})
+			break
+		}
+		// sequentialised: run at the spawn point
 		r.doCall(fr, &x.Call)
 	case *ssa.Send:
 		c := r.get(fr, x.Chan).(*ChanV)
@@ -667,11 +679,52 @@ func (r *Run) doSelect(fr *Frame, x *ssa.Select) Value {
 	if !x.Blocking {
 		return res
 	}
+	if r.runOneQueued() {
+		return r.doSelect(fr, x)
+	}
 	panic(&pathEnd{kind: "deadlock", msg: "blocking select with no ready case (sequentialised)"})
 }
 
 // ---------------------------------------------------------------------------------------------
 // calls
+
+type pendingGo struct {
+	fn   Value
+	args []Value
+	call *ssa.CallCommon
+}
+
+// prepCall evaluates the callee and the arguments of a call without making it (go statements in lazy mode).
+func (r *Run) prepCall(fr *Frame, c *ssa.CallCommon) (Value, []Value) {
+	args := make([]Value, 0, len(c.Args)+1)
+	if c.IsInvoke() {
+		recv, ok := r.get(fr, c.Value).(*IfaceV)
+		if !ok || recv.typ == nil {
+			r.goPanic("runtime error: invalid memory address or nil pointer dereference")
+		}
+		fv := r.resolveInvoke(recv, c.Method)
+		args = append(args, recv.val)
+		for _, a := range c.Args {
+			args = append(args, r.get(fr, a))
+		}
+		return fv, args
+	}
+	for _, a := range c.Args {
+		args = append(args, r.get(fr, a))
+	}
+	return r.get(fr, c.Value), args
+}
+
+// runOneQueued runs the oldest queued goroutine to completion (nested on the current one); false if none is queued.
+func (r *Run) runOneQueued() bool {
+	if len(r.goQueue) == 0 {
+		return false
+	}
+	g := r.goQueue[0]
+	r.goQueue = r.goQueue[1:]
+	r.callValue(g.fn, g.args, g.call)
+	return true
+}
 
 func (r *Run) doCall(fr *Frame, c *ssa.CallCommon) Value {
 	args := make([]Value, 0, len(c.Args)+1)
@@ -1207,6 +1260,8 @@ func (r *Run) unop(fr *Frame, x *ssa.UnOp) Value {
 			ok = true
 		} else if c.c != nil && c.c.closed {
 			val = r.zero(et)
+		} else if r.runOneQueued() {
+			return r.unop(fr, x)
 		} else {
 			panic(&pathEnd{kind: "deadlock", msg: "receive on empty channel (sequentialised)"})
 		}
